@@ -385,8 +385,28 @@ class _ResponseLike(io.BufferedIOBase):
         return self.fp.peek(n)
 
 
+class _DuckBlockingReader:
+    """A duck-typed non-seekable IO[bytes] that offers ONLY read() and seekable() (a thin wrapper around a socket file,
+    urllib3 1.x's resp.raw): read(n) blocks until n bytes are there (or end of stream) - here 'would block' raises Stalled."""
+
+    def __init__(self, data: bytes, limit: int):
+        self._data, self._limit, self._pos = data, limit, 0
+
+    def seekable(self):
+        return False
+
+    def read(self, n=-1):
+        if n is None or n < 0 or self._pos + n > self._limit:
+            raise sources.Stalled(f"read({n}) at {self._pos} needs bytes beyond the {self._limit} delivered")
+        out = self._data[self._pos:self._pos + n]
+        self._pos += n
+        return out
+
+
 def stall_source(kind: str, data: bytes, limit: int, rng):
     """-> (file object, cleanup)"""
+    if kind == "duck-blocking-read":
+        return _DuckBlockingReader(data, limit), lambda: None
     if kind == "raw":
         return sources.StallRaw(data, limit, chunk=rng.choice([1 << 30, 7, 64])), lambda: None
     if kind == "buffered":
@@ -444,7 +464,8 @@ def parse_case(ctx, rng):
     rng.shuffle(js)
     for j in js[: 6 if ctx.tier == "quick" else 30]:
         limit = frames[j - 1]["span"][1]
-        for kind in ("raw", "buffered", rng.choice(["rwpair", "response-like"]), rng.choice(["socket-raw", "socket-buffered"])):
+        for kind in ("raw", "buffered", rng.choice(["rwpair", "response-like", "duck-blocking-read"]),
+                     rng.choice(["socket-raw", "socket-buffered"])):
             for integ in integs:
                 entry = rng.choice(["flat", "flat", "grouped"])
                 f, cleanup = stall_source(kind, data, limit, rng)
